@@ -24,12 +24,12 @@ def expand(r):
     """Independent expander: returns a LIST of recipes replacing r."""
     k = r["k"]
     if k in ("tf", "tfobj"):
+        if r.get("ret", "list") != "list":
+            return expand(r["c"][0])
         kids = []
         for c in r["c"]:
             kids.extend(expand(c))
-        if r.get("ret", "list") == "list":
-            return kids
-        return expand(r["c"][0])
+        return kids
     if k == "list":
         out = []
         for c in r["c"]:
@@ -339,6 +339,23 @@ def _run(ctx):
                 ctx.case(root, nontrivial=nontrivial(root))
             ctx.count("sibling_sequences")
     ctx.exhaustive["sibling_sequences_len_le_%d_over_plain_tf0_tf1_tf3" % maxL] = True
+    # sizes ordinary trees never reach: hundreds of tagifiable siblings, expansions nested 45 deep
+    if ctx.shard == 0:
+        ids = lg.Ids()
+        sibs = []
+        for k_ in range(700):
+            n_ = k_ % 4
+            sibs.append({"k": "text", "s": ids.next("t")} if k_ % 3 == 0 else
+                        {"k": "tf", "ret": "list", "c": [gen.TAG("b", {"k": "text", "s": ids.next("e")}, ws=False) if j % 2 == 0 else {"k": "text", "s": ids.next("e")} for j in range(n_)]})
+        sibs.insert(350, {"k": "dep", "name": "da", "version": "1.0", "script": [{"src": "big.js"}]})
+        deep = gen.TAG("em", {"k": "text", "s": ids.next("t")}, {"k": "dep", "name": "db", "version": "1.9", "script": [{"src": "deep.js"}]}, ws=False)
+        for d_ in range(45):
+            deep = {"k": "tf", "ret": "list" if d_ % 2 else "one", "c": [gen.TAG("div" if d_ % 3 else "span", {"k": "text", "s": ids.next("t")}, deep, ws=bool(d_ % 3))] if d_ % 2 == 0
+                    else [{"k": "text", "s": ids.next("t")}, deep, {"k": "text", "s": ids.next("t")}]}
+        for root in (gen.TAG("div", *sibs), {"k": "list", "t": "taglist", "c": sibs}, gen.TAG("section", deep, {"k": "text", "s": "tail"})):
+            ctx.guard(check_case, ctx, root, witness={"recipe": "large deterministic tree"})
+            ctx.case(("large", len(str(root))), nontrivial=True)
+            ctx.count("very_large_trees")
     # document roots that only exist after expansion (or that an empty expansion sits next to)
     body = gen.TAG("body", {"k": "text", "s": "bt;"}, {"k": "dep", "name": "da", "version": "1.0", "script": [{"src": "r.js"}]}, via_fn=False)
     html = gen.TAG("html", gen.TAG("head", gen.TAG("title", {"k": "text", "s": "T"}), via_fn=False), body, via_fn=False)
